@@ -162,7 +162,7 @@ def exc_info(e):
 
 # ---------------------------------------------------------------------------------------
 # parallel execution with hang protection
-class Hang(Exception):
+class Hang(BaseException):
     pass
 
 
